@@ -198,7 +198,6 @@ def run(ctx):
     r6 = ctx.rule("C09.6", "every work container the lifecycle mutates is reset by Scheduler.clear() at the start of an execution", floor=5)
     PERSISTENT = {
         "executors": "configuration: filled by add_executor/load, not by the job lifecycle",
-        "_tracked_promises": "keyed by promise id for fork_thread/join_thread; entries are popped by join_thread",
     }
     init = m.func("Scheduler.__init__")
     containers = {}
